@@ -3,7 +3,11 @@
 (* Single-term matching (spdxexp/node.go, compare.go, license.go), twice:  *)
 (*                                                                         *)
 (*   MatchDecl - the rule as property C02 words it, over the family table  *)
-(*               the tree ships (any position of an id may witness);       *)
+(*               the tree ships.  Where an id is listed at several         *)
+(*               positions the table means its FIRST position (that is how *)
+(*               the lookup is documented to work: "duplicates shadow      *)
+(*               later entries"); the shadowed entries are dead, which is  *)
+(*               C11's OnePosition clause, not a second meaning (R9);      *)
 (*   MatchOp   - the operational structure of licensesAreCompatible /      *)
 (*               licenseRefsAreCompatible: exception gate, exact-equality  *)
 (*               shortcut, then the four '+' cases over compareGT /        *)
@@ -16,6 +20,7 @@
 EXTENDS Parser
 
 Base(id) == StripOrLater(id)
+Where(id) == IF Pos(id) = {} THEN {} ELSE {FirstPos(id)}     \* the table's meaning of an id (R9)
 
 CanonStr(t) == IF t.kind = "ref"
                THEN (IF t.doc # "" THEN "DocumentRef-" \o t.doc \o ":" ELSE "") \o "LicenseRef-" \o t.id
@@ -34,17 +39,15 @@ MatchDecl(a, b) ==
   \/ a.kind = "ref" /\ b.kind = "ref" /\ a.id = b.id /\ a.doc = b.doc
   \/ /\ a.kind = "lic" /\ b.kind = "lic" /\ a.exc = b.exc
      /\ \/ Base(a.id) = Base(b.id)
-        \/ \E p \in Pos(Base(a.id)), q \in Pos(Base(b.id)) :
+        \/ \E p \in Where(Base(a.id)), q \in Where(Base(b.id)) :
               /\ p[1] = q[1]
               /\ \/ ~a.plus /\ ~b.plus /\ p[2] = q[2]
                  \/ a.plus /\ ~b.plus /\ q[2] >= p[2]
                  \/ ~a.plus /\ b.plus /\ p[2] >= q[2]
                  \/ a.plus /\ b.plus
 
-\* the answer does not depend on which table position of an id is used (R9)
-PositionIndependent(a, b) ==
-  a.kind = "lic" /\ b.kind = "lic" =>
-     (Cardinality(Pos(Base(a.id))) <= 1 /\ Cardinality(Pos(Base(b.id))) <= 1)
+\* (kept for the record kinds that carry a "posdep" flag: with the first-position reading no pair is ambiguous)
+PositionIndependent(a, b) == TRUE
 
 (* ----- operational ------------------------------------------------------ *)
 HasRange(id) == Pos(Base(id)) # {}
